@@ -7,7 +7,10 @@ with `__slots__`, tuples and frozensets of tuples holding mutable members, `func
 a list, frozen dataclass / attrs instances with a list field, these nested in a list / dict and as one of two fields),
 whose body — selected by the INPUT `mode` — leaves the value alone, changes it in
 place, rebinds a local name, or changes it and restores it; plus shell tasks that append to their file argument under
-each copy mode (the only place where staging is in effect, see D63).
+each copy mode (the only place where staging is in effect, see D63).  Every single-field value kind also runs WRAPPED:
+as a state of a split task (2–3 states, one of which changes its value), as a node of a workflow (upstream value →
+mutating node → downstream) and as a node of a nested workflow — the jobs a workflow dispatches, whose checksum the
+submitting process has computed before the job is pickled into a `cf` worker.
 
   implementation observable  exception class raised by `Submitter.__call__`, whether the submitter logged an ERROR
                              record, the field names listed by the RuntimeError, whether the one result directory in the
@@ -40,8 +43,9 @@ from fileformats.generic import File
 
 from harness import core
 from harness.extractors.job_skeleton import extract_job_skeleton
+from harness.extractors.pickle_state import extract as extract_pickle_state
 from harness.engines.cachehist import ChildRunner
-from pydra.compose import python, shell
+from pydra.compose import python, shell, workflow
 
 META = {
     "engine": "JobProto",
@@ -80,6 +84,14 @@ OBLIGATIONS = [
         "C19_skip_none",
         "C19_skip_misses",
         "C19_witness_skip",
+        "C19_roundtrip_preserves",
+        "C19_refs_present",
+        "C19_detect_worker",
+        "C19_drop_refs_silent",
+        "C19_drop_refs_fresh_detected",
+        "C19_witness_drop_refs",
+        "C19_reported_node",
+        "C19_pickle_tie",
         "C19_no_check_silent",
         "C19_reported",
         "C19_copy_mode",
@@ -90,7 +102,7 @@ OBLIGATIONS = [
 ]
 OBLIGATIONS.append("PydraModel.JobProto.Skel.C19_skeleton")  # decide over the regenerated Job.run / run_async skeleton
 LEAN_TARGETS = ["PydraModel.Props.C19", "PydraModel.JobProto.HashCheckSkel"]
-EXTRACTORS = [extract_job_skeleton]
+EXTRACTORS = [extract_job_skeleton, extract_pickle_state]
 MODEL_TARGETS = ["PydraModel.JobProto.HashCheck", "PydraModel.DriverUtil"]
 
 # --------------------------------------------------------------------------------------------------------------
@@ -376,7 +388,24 @@ def gen_value(rng, kind):
     return "".join(rng.choice("abcdef") for _ in range(rng.randint(1, 12)))  # file content
 
 
+def gen_wrapped(rng, worker="debug", kind=None, form=None, mode=None) -> dict:
+    kind = kind or rng.choice(VALUE_KINDS)
+    c = {
+        "kind": kind,
+        "value": gen_value(rng, kind),
+        "mode": mode or rng.choice(MODES + ["mutate"]),
+        "worker": worker,
+        "form": form or rng.choice(FORMS),
+        "raise_errors": rng.choice([None, None, True]) if worker == "cf" else None,
+    }
+    if c["form"] == "split":
+        c["states"] = rng.choice([2, 3])
+    return c
+
+
 def gen_case(rng, worker=None) -> dict:
+    if rng.random() < 0.3:
+        return gen_wrapped(rng, worker or "debug")
     kind = rng.choice(KINDS)
     c = {"kind": kind, "value": gen_value(rng, kind), "worker": worker or "debug"}
     if kind == "shell":
@@ -431,6 +460,140 @@ def build(case, sandbox: Path):
     return shell_task(case["copy_mode"])(script=str(script), f=File(fp)), {}, fp
 
 
+# ---- wrapped forms: the mutating task as a state of a split task, as a node of a workflow, as a node of a nested
+# workflow.  These are the jobs a WORKFLOW dispatches: the submitting process has computed `job.checksum` before the job
+# is (under cf) pickled into a worker process, so the check there depends on the reference hashes travelling with it.
+
+VALUE_KINDS = ["list", "dict", "set", "obj", "objlist", "ndarray", "nested"] + HM_KINDS
+FORMS = ["split", "node", "nested"]
+
+
+@python.define
+def Make(v: ty.Any) -> ty.Any:
+    return v
+
+
+@python.define
+def Down(x: ty.Any) -> int:
+    return 1
+
+
+@workflow.define
+def WNode(v: ty.Any, mode: str, kind: str) -> int:
+    up = workflow.add(Make(v=v), name="up")  # upstream value
+    mut = workflow.add(PObj(v=up.out, mode=mode, kind=kind), name="mut")  # the (possibly) mutating node
+    down = workflow.add(Down(x=mut.out), name="down")
+    return down.out
+
+
+@workflow.define
+def WOuter(v: ty.Any, mode: str, kind: str) -> int:
+    inner = workflow.add(WNode(v=v, mode=mode, kind=kind), name="inner")
+    tail = workflow.add(Down(x=inner.out), name="tail")
+    return tail.out
+
+
+def make_value(kind: str, val):
+    import numpy as np
+
+    val = copy.deepcopy(val)
+    if kind in ("list", "dict", "nested"):
+        return val
+    if kind == "set":
+        return set(val)
+    if kind in ("obj", "objlist"):
+        return Box(val["a"], list(val["items"]))
+    if kind == "ndarray":
+        return np.array(val, dtype="int64")
+    return make_hm(kind, val)
+
+
+def variant(kind: str, val, i: int):
+    """another value of the same kind (for the other states of a split): differs from `val` and from other i"""
+    val = copy.deepcopy(val)
+    extra = 1000 + i
+    if kind in ("list", "ndarray", "set"):
+        return val + [extra]
+    if kind == "dict":
+        return {**val, f"s{i}": extra}
+    if kind == "nested":
+        val[0]["k"] = val[0]["k"] + [extra]
+        return val
+    return {"a": val["a"], "items": list(val["items"]) + [extra]}
+
+
+def build_wrapped(case):
+    """-> (task, {field: original object}, checksum of the mutating job, checksum it would have after the change)"""
+    kind, val, mode, form = case["kind"], case["value"], case["mode"], case["form"]
+    expected = PObj(v=make_value(kind, val), mode=mode, kind=kind)._checksum
+    mutated = None
+    if mode == "mutate":
+        v2 = make_value(kind, val)
+        body(kind, v2, "mutate")
+        mutated = PObj(v=v2, mode=mode, kind=kind)._checksum
+    v = make_value(kind, val)
+    if form == "split":
+        other = "none" if mode == "mutate" else mode
+        n = case.get("states", 3)
+        values = [make_value(kind, variant(kind, val, 0)), v] + ([make_value(kind, variant(kind, val, 2))] if n == 3 else [])
+        modes = [other, mode] + ([other] if n == 3 else [])
+        task = PObj(kind=kind).split(("v", "mode"), v=values, mode=modes)
+    elif form == "node":
+        task = WNode(v=v, mode=mode, kind=kind)
+    elif form == "nested":
+        task = WOuter(v=v, mode=mode, kind=kind)
+    else:
+        raise ValueError(form)
+    return task, {"v": v}, expected, mutated
+
+
+def impl_wrapped(case, sandbox: Path):
+    import cloudpickle as cp
+
+    from pydra.engine.submitter import Submitter
+    from pydra.utils.hash import hash_function
+
+    task, originals, expected, mutated = build_wrapped(case)
+    before = {k: freeze(v) for k, v in originals.items()}
+    hashes = field_hashes(case, sandbox, hash_function)
+    root = sandbox / "root"
+    cap = _Capture()
+    lg = logging.getLogger("pydra.submitter")
+    lg.addHandler(cap)
+    exc, top = None, None
+    kw = {"n_procs": 2} if case["worker"] == "cf" else {}
+    try:
+        with Submitter(cache_root=root, worker=case["worker"], **kw) as sub:
+            res = sub(task, raise_errors=case["raise_errors"])
+        top = bool(res.errored)
+    except Exception as e:
+        exc = e
+    finally:
+        lg.removeHandler(cap)
+    stored = None
+    if mutated is not None and (root / mutated).exists():
+        where = "other"
+    elif (root / expected / "_result.pklz").exists():
+        where = "orig"
+        with open(root / expected / "_result.pklz", "rb") as f:
+            stored = bool(cp.load(f).errored)
+    else:
+        where = "none"
+    changed = None
+    if case["worker"] == "debug" and isinstance(exc, RuntimeError) and "hashes have changed" in str(exc):
+        changed = sorted(FIELD_IDS[m] for m in re.findall(r"^- (\w+): ", str(exc), re.M))
+    obs = {
+        "exc": core.exc_tag(exc) if exc else None,
+        "logged": cap.n > 0,
+        "changed": changed,
+        "dir": where,
+        "stored_errored": stored,
+        "orig_changed": any(freeze(v) != before[k] for k, v in originals.items()),
+        "top_errored": top,
+    }
+    return obs, hashes
+
+
 def freeze(x):
     import numpy as np
 
@@ -466,6 +629,8 @@ def impl_case(case, sandbox: Path):
     from pydra.engine.submitter import Submitter
     from pydra.utils.hash import hash_function
 
+    if case.get("form"):
+        return impl_wrapped(case, sandbox)
     task, originals, fp = build(case, sandbox)
     # the reference identity: checksum of an equal task built independently, before anything runs
     ref_task, _, _ = build(case, sandbox)
@@ -563,6 +728,21 @@ def model_queries(case, hashes):
     is_file = case["kind"] in ("file", "filecopy", "shell")
     same = case["worker"] == "debug"
     fields = [[fid, vid(h0), vid(h1), bool(same or is_file)] for fid, h0, h1 in hashes]
+    if case.get("form"):
+        # a job dispatched by a workflow: checksum computed by the dispatcher, pickled into the worker under cf
+        return [
+            {
+                "op": "run_node",
+                "fields": fields,
+                "hash": [[v, v] for v in ids.values()],
+                "memo": True,
+                "check": True,
+                "raise_errors": bool(case["raise_errors"]) or same,
+                "submitted": True,
+                "pickled": not same,
+                "keep_refs": True,
+            }
+        ]
     q = [
         {
             "op": "run",
@@ -587,6 +767,19 @@ def model_obs(case, hashes, ans):
     same = case["worker"] == "debug"
     is_file = case["kind"] in ("file", "filecopy", "shell")
     touched = case["mode"] == "mutate"
+    if case.get("form"):
+        rep = run["report"]
+        return {
+            "exc": "RuntimeError" if rep == "raised" else None,
+            "logged": rep == "logged",
+            "changed": run["changed"] if rep == "raised" and same else None,
+            "dir": run["dir"],
+            "stored_errored": False,
+            # only a split under the debug worker hands the caller's own objects to the body; a workflow node gets the
+            # value its upstream node stored
+            "orig_changed": touched and same and case["form"] == "split",
+            "top_errored": {"raised": None, "logged": True, "silent": False}[rep],
+        }
     if is_file:
         orig_changed = touched and ans[1]["orig_changed"]
     else:
@@ -630,6 +823,7 @@ def spec_ok_of(case, obs) -> tuple[bool, str]:
 
 WATCHDOG_S = float(__import__("os").environ.get("VERIF_WATCHDOG_S", "900"))  # per case; generous: the machine may be heavily loaded
 HUNG = {"exc": "HANG", "logged": False, "changed": None, "dir": "none", "stored_errored": None, "orig_changed": None}
+HEAVY_KINDS = ["list", "plain", "tuple", "fdc"]  # wrapped forms under cf in the quick tier
 
 
 def child_case(case: dict, sandbox: Path):
@@ -662,6 +856,7 @@ def run_cases(ctx, cases):
             ctx.tie_broken.append({"kind": "model-driver", "detail": ans[i0]})
         ok, why = spec_ok_of(c, obs)
         ctx.count(f"kind={c['kind']}")
+        ctx.count(f"form={c.get('form', 'single')}/{c['worker']}")
         ctx.count(f"mode={c['mode']}")
         ctx.count(f"worker={c['worker']}")
         ctx.count("reported:" + ("raise" if obs["exc"] else "log" if obs["logged"] else "none"))
@@ -671,6 +866,7 @@ def run_cases(ctx, cases):
             model,
             ok,
             nontrivial=c["mode"] in ("mutate", "restore") or c["worker"] == "cf",
+        key=None,
             defect=defect_of(c),
             what=why or "hash check after the body",
         )
@@ -682,6 +878,14 @@ D63_WITNESS = {"kind": "filecopy", "value": "hello", "mode": "mutate", "worker":
 D70_WITNESS = {"kind": "partial", "value": {"a": 1, "items": [1, 2]}, "mode": "mutate", "worker": "debug", "raise_errors": None}
 
 CORPUS = [
+    # jobs dispatched by a workflow under the process-pool worker (checksum computed by the dispatcher, job pickled):
+    # a variant whose unpickling dropped the reference hashes let exactly these pass silently
+    {"kind": "list", "value": [1, 2], "mode": "mutate", "worker": "cf", "form": "node", "raise_errors": None},
+    {"kind": "list", "value": [1, 2], "mode": "mutate", "worker": "cf", "form": "split", "states": 3, "raise_errors": None},
+    {"kind": "dict", "value": {"k0": 1}, "mode": "mutate", "worker": "cf", "form": "nested", "raise_errors": True},
+    {"kind": "list", "value": [1, 2], "mode": "mutate", "worker": "debug", "form": "node", "raise_errors": None},
+    {"kind": "plain", "value": {"a": 1, "items": [1]}, "mode": "mutate", "worker": "debug", "form": "split", "states": 2, "raise_errors": None},
+    {"kind": "tuple", "value": {"a": 0, "items": [1, 2, 3]}, "mode": "restore", "worker": "debug", "form": "nested", "raise_errors": None},
     # hashable-but-mutable inputs (a post-run check that trusted `Hashable` to mean immutable missed exactly these)
     {"kind": "plain", "value": {"a": 1, "items": [1, 2]}, "mode": "mutate", "worker": "debug", "raise_errors": None},
     {"kind": "tuple", "value": {"a": 0, "items": [1, 2, 3]}, "mode": "mutate", "worker": "debug", "raise_errors": None},
@@ -713,8 +917,18 @@ def correspondence(ctx):
     # every hashable-but-mutable kind is changed in place at least once per run (debug worker; random values)
     for k in HM_KINDS:
         cases.append({"kind": k, "value": gen_value(ctx.rng, k), "mode": "mutate", "worker": "debug", "raise_errors": None})
-    cases += [gen_case(ctx.rng, "debug") for _ in range(ctx.pick(50, 600))]
-    cases += [gen_case(ctx.rng, "cf") for _ in range(ctx.pick(3, 30))]
+    # jobs dispatched by a workflow: every value kind changed in place once per run in some wrapped form (debug), every
+    # form under cf (where the job runs from a pickled copy whose checksum was computed by the dispatcher)
+    for i, k in enumerate(VALUE_KINDS):
+        forms = FORMS if not ctx.quick else [FORMS[(i + ctx.seed) % 3]]
+        cases += [gen_wrapped(ctx.rng, "debug", kind=k, form=f, mode="mutate") for f in forms]
+    cf_kinds = HEAVY_KINDS[: ctx.pick(1, 4)] if ctx.quick else VALUE_KINDS
+    for i, k in enumerate(cf_kinds):
+        forms = FORMS if not ctx.quick or i == 0 else []
+        cases += [gen_wrapped(ctx.rng, "cf", kind=k, form=f, mode="mutate") for f in forms]
+    cases.append(gen_wrapped(ctx.rng, "cf", kind="list", form="node", mode="none"))
+    cases += [gen_case(ctx.rng, "debug") for _ in range(ctx.pick(40, 600))]
+    cases += [gen_case(ctx.rng, "cf") for _ in range(ctx.pick(2, 40))]
     impls = run_cases(ctx, cases)
     obs = impls[0][0]
     if any(f["id"] == "D63" for f in ctx.known()):
